@@ -210,12 +210,116 @@ def make_genB(tier):
     return gen
 
 
+def make_genC(tier):
+    """plant with start / shutdown ramp profiles on an hourly grid (one step = one main time unit)"""
+    def gen(ch):
+        gj = dict(GRID_A["6xh"])
+        g = Grid.from_json(gj)
+        T = g.T
+        words = price_words(5, tier)
+        w = ch.free("pword", words)
+        prices = dict(p=[w[i % len(w)] for i in range(T)], fuelc=[4.0] * T)
+        a = dict(type="Plant", name="pl", nodes=["n1"], price="fuelc", min_cap=2.0, max_cap=8.0)
+        prof = ch.free("profiles", ["shutdown1", "start1", "both1", "shutdown2", "start2", "both_wide"])
+        if prof in ("start1", "both1"):
+            a.update(start_ramp_lower_bounds=[3.0], start_ramp_upper_bounds=[3.0])
+        if prof in ("shutdown1", "both1"):
+            a.update(shutdown_ramp_lower_bounds=[5.0], shutdown_ramp_upper_bounds=[5.0])
+        if prof == "start2":
+            a.update(start_ramp_lower_bounds=[1.0, 3.0], start_ramp_upper_bounds=[2.0, 5.0])
+        if prof == "shutdown2":
+            a.update(shutdown_ramp_lower_bounds=[5.0, 3.0], shutdown_ramp_upper_bounds=[6.0, 4.0])
+        if prof == "both_wide":
+            a.update(start_ramp_lower_bounds=[1.0], start_ramp_upper_bounds=[4.0], shutdown_ramp_lower_bounds=[1.0], shutdown_ramp_upper_bounds=[6.0])
+        mc = ch.pick("pl.max_cap", ["const", "derated", "rising"])
+        if mc == "derated":    # capacity drops while the unit may be inside a profile
+            a["max_cap"] = S.interval_dict(g, [((("gp", 0), ("gp", 3)), 8.0), ((("gp", 3), ("gp", T)), 4.0)])
+        elif mc == "rising":
+            a["max_cap"] = S.interval_dict(g, [((("gp", 0), ("gp", 2)), 5.0), ((("gp", 2), ("gp", T)), 8.0)])
+        rp = ch.pick("pl.ramp", [2.0, None, 3.0])
+        if rp is not None:
+            a["ramp"] = rp
+        ini = ch.pick("pl.initial", ["on_long", "off_long", "on1", "off1"])
+        a.update(initial_kwargs(ini, 1.0))
+        if ini.startswith("on"):
+            a["last_dispatch"] = ch.pick("pl.last_dispatch", [6.0, 3.0])
+        R = ch.pick("pl.min_runtime", [0, 2])
+        if R:
+            a["min_runtime"] = float(R)
+        sc = ch.pick("pl.start_costs", [0.0, 7.0])
+        if sc:
+            a["start_costs"] = sc
+        assets = [dict(type="SimpleContract", name="mkt", nodes=["n1"], price="p", min_cap=-15.0, max_cap=15.0), a]
+        scn = S.finish(gj, assets, prices)
+        scn["meta"] = dict(initial=ini, R=R, kind="profiles", profiles=prof)
+        return scn
+    return gen
+
+
+def run_partC(case):
+    """bracket oracle: best admissible pattern under the strict reading <= EAO <= under the lenient reading"""
+    scn = case["scenario"]
+    meta = scn["meta"]
+    a = [x for x in scn["assets"] if x["name"] == "pl"][0]
+    tags = S.feature_tags(scn) + ["partC", "initial:" + meta["initial"], "profiles:" + meta["profiles"]]
+    ctag = ["profiles:" + meta["profiles"], "initial:" + meta["initial"][:2]] + (["derated"] if isinstance(a["max_cap"], dict) else [])
+    res = dict(status="ok", violations=[], counters={})
+    V = res["violations"]
+    run = ImplRun(scn, solver="SCIPY", want_output=False)
+    res["fingerprint"] = "%s|%s" % (run.status, None if run.value is None else round(run.value, 5))
+    res["outcome"] = "C:" + run.status
+    g = Grid.from_json(scn["grid"])
+    nS = len(a.get("start_ramp_lower_bounds") or [])
+    nD = len(a.get("shutdown_ramp_lower_bounds") or [])
+    init = uc.initial_state(uc.steps(a.get("time_already_running", 0), 1.0), uc.steps(a.get("time_already_off", 0), 1.0))
+    R = uc.steps(a.get("min_runtime", 0), 1.0) + nS + nD
+    best = {}
+    for reading in ("strict", "lenient"):
+        b = None
+        for w in uc.language(g.T, R, 0, init):
+            try:
+                ref = R2.RefModel(scn, options=dict(words={"pl": w}, profile_reading=reading))
+            except R2.Unsupported:
+                continue
+            st, val = ref.optimum()
+            if st == "optimal" and (b is None or val > b):
+                b = val
+        best[reading] = b
+    if run.status == "exception":
+        res.update(status="skip", validated=False)
+        res["counters"]["impl_error@%s" % run.site] = 1
+        return res
+    if run.status != "optimal":
+        if best["strict"] is not None:
+            V.append(viol("c06.profile_exactness", "EAO reports %s, an admissible pattern is feasible under the strict reading (%.6f)" % (run.status, best["strict"]), tags, ctag + ["infeasible"]))
+        else:
+            res.update(status="skip", validated=False)
+        return res
+    tol = 1e-6 * (1 + abs(run.value))
+    if best["lenient"] is None or run.value > best["lenient"] + tol:
+        V.append(viol("c06.profile_exactness", "EAO's optimum %.6f exceeds the best admissible pattern even under the lenient reading of the profiles (%s): "
+                      "something inadmissible is admitted" % (run.value, best["lenient"]), tags, ctag + ["higher"]))
+    elif best["strict"] is not None and run.value < best["strict"] - tol:
+        V.append(viol("c06.profile_exactness", "EAO's optimum %.6f is below the best admissible pattern under the strict reading (%.6f): an admissible "
+                      "schedule is excluded or overpriced" % (run.value, best["strict"]), tags, ctag + ["lower"]))
+    res["nontrivial"] = True
+    if best["strict"] is not None and best["lenient"] is not None and best["lenient"] - best["strict"] > tol:
+        res["counters"]["bracket_open"] = 1
+    return res
+
+
 def build_cases(tier):
     K = 2 if tier == "quick" else 3
     A = partA_cases(tier)
+    C, stC = merge_cases(family("partC", make_genC(tier), K))
+    for c in C:
+        c["kind"] = "C"
     B, stats = merge_cases(family("partB", make_genB(tier), K))
     for c in B:
         c["kind"] = "B"
+    B = B + C
+    stats["transitions"] += stC["transitions"]
+    stats["partC_cases"] = len(C)
     stats["partA_tuples"] = len(A)
     stats["states"] = len(A) + len(B)
     stats["transitions"] = stats["transitions"] + len(A) * (32 if tier == "quick" else 48)
@@ -226,6 +330,8 @@ def build_cases(tier):
 def run_case(case):
     if case.get("kind") == "A":
         return run_partA(case)
+    if case.get("kind") == "C":
+        return run_partC(case)
     return run_partB(case)
 
 
